@@ -68,9 +68,25 @@ def run(ctx):
     ok = any(isinstance(x, ast.Raise) and "ImplementationMissingError" in norm(x.exc) for x in own_nodes(db.node))
     c.ob("R2", ok, db, "fail-fast", "a referenced name without implementation raises ImplementationMissingError at creation" if ok else
          "discovery no longer fails fast on a missing implementation", db.node)
-    both = [x for x in own_nodes(db.node) if isinstance(x, ast.Assign) and isinstance(x.targets[0], ast.Subscript) and "_snake_to_camel" in norm(x.targets[0])]
-    c.ob("R2", len(both) >= 2, db, "snake-and-camel-registered", "module functions and provider methods are registered under snake_case and camelCase" if len(both) >= 2 else
+    regs = [db] + [t for s_ in res.callsites(db, None) for t in s_.targets if t.module.name == "logic_loader" and t.name.startswith("_") and t.name != "_snake_to_camel"
+                   and t.name not in ("_extract_logic_from_node", "_collect_guard_names")]
+    plain_ops, alias_ops = set(), set()
+    for f_ in regs:
+        alias_names = {a.targets[0].id for a in own_nodes(f_.node) if isinstance(a, ast.Assign) and isinstance(a.targets[0], ast.Name) and "_snake_to_camel" in norm(a.value)}
+        for x in own_nodes(f_.node):
+            if isinstance(x, ast.Assign) and isinstance(x.targets[0], ast.Subscript) and "logic_map" in norm(x.targets[0].value):
+                k = norm(x.targets[0].slice)
+                (alias_ops if "_snake_to_camel" in k or k in alias_names else plain_ops).add("assign")
+            elif isinstance(x, ast.Call) and isinstance(x.func, ast.Attribute) and x.func.attr in ("setdefault", "update") and "logic_map" in norm(x.func.value) and x.args:
+                k = norm(x.args[0])
+                (alias_ops if "_snake_to_camel" in k or k in alias_names else plain_ops).add(x.func.attr)
+    ok = bool(alias_ops) and bool(plain_ops)
+    c.ob("R2", ok, db, "snake-and-camel-registered", "module functions and provider methods are registered under snake_case and camelCase" if ok else
          "discovered callables are no longer registered under both spellings", db.node)
+    same = alias_ops == plain_ops
+    c.ob("R2", same, db, "alias-has-same-precedence", "the camelCase alias is registered with the same operation as the name itself (later sources win for both)" if same else
+         f"the name is registered with {sorted(plain_ops)} but its camelCase alias with {sorted(alias_ops)}: 'later source wins' holds for one spelling and "
+         f"'first source wins' for the other, so a provider overrides a module function for notify_user but not for notifyUser", db.node)
     # ---- R3 a user implementation wins over a built-in; the two snake->camel copies agree -------
     for v in VIEWS:
         ea = roles(ctx, v).execute_actions
